@@ -928,6 +928,13 @@ class ApplicationStopJobs(ApplicationJobs):
         if running:
             command.stop()
             return True
+        # the process may already be STOPPING on the Supvisors instance (e.g. a former stop job has been aborted):
+        # no new request is needed but its termination has to be waited for before stopping the next groups
+        instance_info = process.info_map.get(command.identifier)
+        if (instance_info and instance_info['state'] == ProcessStates.STOPPING
+                and command.identifier in process.running_identifiers):
+            command.update_sequence_counter()
+            return True
 
 
 class Commander:
